@@ -204,7 +204,7 @@ theorem inv_step (s : St) (e : Ev) (s' : St) (hi : Inv s) (hs : step s e = some 
   | cancel => exact inv_cancel hi hs
   | getState t => exact inv_getState hi hs
   | push => exact inv_push hi hs
-  | nRoot => exact inv_nRoot hi hs
+  | nRoot c => exact inv_nRoot hi hs
   | nLoadReq j c => exact inv_nLoadReq hi hs
   | nSetFin => exact inv_nSetFin hi hs
   | nSetExit => exact inv_nSetExit hi hs
